@@ -263,7 +263,9 @@ func (tr TranslationConfig) TranslatePackages(modDir string,
 	wg.Add(len(pkgs))
 	for i, pkg := range pkgs {
 		go func(i int, pkg *packages.Package) {
+			verifHook("worker.start", i, pkg.PkgPath)
 			f, err := tr.translatePackage(pkg)
+			verifHook("worker.translated", i, pkg.PkgPath)
 			files[i] = f
 			errs[i] = err
 			wg.Done()
